@@ -8,7 +8,9 @@
    a consumer receive admitting ANY of the blocked senders, Store, Done, Close at any
    position; the select choice when both branches are ready is part of the step) -- unbounded,
    induction over the schedule.  The consumer executes each received task once (Recv; Store;
-   Done).  A task is identified by (producer, index of the call in the producer's program). *)
+   Done).  A task is identified by (producer, index of the call in the producer's program).
+   The Get theorems additionally quantify over schedules [gs] that start Get2 waiter goroutines
+   on any handle at any position ([tq_gstep]). *)
 From Got Require Import Base TaskQueue TaskQueueProofs.
 Require Import Sorted.
 Local Open Scope nat_scope.
@@ -71,18 +73,81 @@ Theorem tq_nil_handler_empty :
 Proof. exact tq_nil_handler_l. Qed.
 Print Assumptions tq_nil_handler_empty.
 
-(* FULL STATEMENT (not proved as one theorem):
-     tq_get_returns_handler_result : forall cap progs sched i j h,
-       nth_error (nth i progs []) j = Some (TqCallback (Some h)) ->
-       tq_get2 (tq_final (tq_init cap progs) sched) (TqHTask (i, j))
-         = if tq_done_in (tq_trace (tq_init cap progs) sched) (i, j) then Some h else None.
-   PROVED (the safety half): whenever Get2 of a task returns, the task has been received and
-   its execution is complete (it is not the task the consumer is executing), and the pair is
-   exactly the pair of that task's handler; by tq_exactly_once that task is the only one with
-   this id.  MISSING: the converse (the Done step releases the getter -- checked on every run
-   by the correspondence: model replay of Get return instants + monitor get-stuck/get-time),
-   the link task handler = handler of call j in the program (by construction in tq_step_prod),
-   and stability in Coq form (the statement holds for every schedule, hence every extension). *)
+(* Get1/Get2 of a callback task block until the consumer has executed it and then return
+   exactly what the handler returned.  For the task of call j of producer i, whose PROGRAM
+   says SendCallback(handler returning h): in the state after ANY schedule, Get2 is blocked
+   (None) iff the trace so far contains no Done step of task (i, j), and otherwise returns h --
+   the pair the program gave to that very call (not a neighbour's, not the zero value).  As
+   the statement holds after every schedule it holds after every prefix and every extension:
+   Get is blocked at every instant before the Done step, returns h immediately after it, and
+   keeps returning h for ever (a later Store of another task, a Close, further sends do not
+   change it).  Get1 is the first component. *)
+Theorem tq_get_returns_handler_result :
+  forall cap progs sched i j h,
+    nth_error (nth i progs []) j = Some (TqCallback (Some h)) ->
+    let s := tq_final (tq_init cap progs) sched in
+    let done := tq_done_in (tq_trace (tq_init cap progs) sched) (i, j) in
+    tq_get2 s (TqHTask (i, j)) = (if done then Some h else None) /\
+    tq_get1 s (TqHTask (i, j)) = (if done then Some (fst h) else None).
+Proof. exact tq_get_full2_l. Qed.
+Print Assumptions tq_get_returns_handler_result.
+
+(* the handle: what call j of producer i returned to its caller (the j-th entry of the
+   producer's returns) is the handle of call j of ITS program -- TqHTask (i, j) for a real
+   SendCallback/SendTask, taskEmpty for a nil handler, nil for a nil task.  So "Get2 of what
+   SendCallback(handler) returned" is [tq_get2 s (TqHTask (i, j))] of the theorem above. *)
+Theorem tq_call_returns_own_handle :
+  forall cap progs sched i p j hd,
+    let s := tq_final (tq_init cap progs) sched in
+    nth_error (tq_prods s) i = Some p -> nth_error (tq_rets p) j = Some hd ->
+    exists op, nth_error (nth i progs []) j = Some op /\ hd = tq_handle_of i j op.
+Proof. exact tq_ret_handle_l. Qed.
+Print Assumptions tq_call_returns_own_handle.
+
+(* Get2 as goroutines (models/TaskQueue.v, tq_gstep): a schedule may start a Get2 waiter on
+   any handle at any position; a waiter returns at once iff its task is done, otherwise it
+   parks in wg.Wait(); only the wg.Done() inside the Done step of that taskCallback releases
+   parked waiters (all of them, in that step).  For every such schedule [gs] (waiters never
+   influence the queue: its state and trace are those of the queue's own sub-schedule) EVERY
+   waiter on the task of call (i, j) is parked iff the Done step of (i, j) has not happened and
+   otherwise has returned the program's pair h.  Instantiated at the prefixes of [gs]: a waiter
+   started before the Done step is parked at every instant up to it and is released by exactly
+   that step (no lost wake-up, no early release, whatever the number of waiters); a waiter
+   started after it returns at once; both return h. *)
+Theorem tq_get_waiters_released_by_done :
+  forall cap progs gs i j h,
+    nth_error (nth i progs []) j = Some (TqCallback (Some h)) ->
+    let g := tq_gfinal (tq_ginit cap progs) gs in
+    let done := tq_done_in (tq_gbase_trace (tq_gtrace (tq_ginit cap progs) gs)) (i, j) in
+    tq_base g = tq_final (tq_init cap progs) (tq_gbase_sched gs) /\
+    tq_gbase_trace (tq_gtrace (tq_ginit cap progs) gs) = tq_trace (tq_init cap progs) (tq_gbase_sched gs) /\
+    forall w, In w (tq_waiters g) -> tq_w_on w = TqHTask (i, j) ->
+      tq_w_ret w = if done then Some h else None.
+Proof. exact tq_get_waiters_l. Qed.
+Print Assumptions tq_get_waiters_released_by_done.
+
+(* waiter number k is the same goroutine in every extension of a run: same handle, and a pair
+   it has returned never changes *)
+Theorem tq_waiter_identity_stable :
+  forall gs g k w, nth_error (tq_waiters g) k = Some w ->
+    exists w', nth_error (tq_waiters (tq_gfinal g gs)) k = Some w' /\ tq_w_on w' = tq_w_on w /\
+               (forall p, tq_w_ret w = Some p -> tq_w_ret w' = Some p).
+Proof. exact tq_waiter_stable_l. Qed.
+Print Assumptions tq_waiter_identity_stable.
+
+(* the [released] list reported by a step names exactly the waiters that this step took from
+   parked to returned, with the pair they return *)
+Theorem tq_release_events_exact :
+  forall g b g' e rel, tq_gstep g (TqGBase b) = (g', TqGEBase e rel) ->
+    forall k p, In (k, p) rel <->
+      exists o w, nth_error (tq_waiters g) k = Some o /\ nth_error (tq_waiters g') k = Some w /\
+                  tq_w_ret o = None /\ tq_w_ret w = Some p.
+Proof. exact tq_gstep_released_l. Qed.
+Print Assumptions tq_release_events_exact.
+
+(* the safety half in terms of the received tasks (kept): whenever Get2 of a task returns, the
+   task has been received, its execution is complete (it is not the task the consumer is
+   executing), and the pair is that task's handler's pair *)
 Theorem tq_get_returns_handler_result_partial :
   forall cap progs sched id pr,
     let s := tq_final (tq_init cap progs) sched in
@@ -115,4 +180,41 @@ Example c09_nonvacuous :
   tq_get2 (tq_final s0 (firstn 6 c09_sched)) (TqHTask (0, 0)) = None /\
   tq_get2 (tq_final s0 c09_sched) (TqHTask (0, 0)) = Some (5, 0)%Z /\
   tq_closed (tq_final s0 c09_sched) = true.
+Proof. vm_compute. repeat split. Qed.
+
+(* non-vacuity of the Get theorems: size 2, one producer sends two callbacks with DIFFERENT
+   handlers (5,0) and (1,1).  Waiter 0 starts on task (0,0) before it is executed and parks;
+   waiter 1 parks on task (0,1) while (0,0) is being executed; the Done step of (0,0) releases
+   exactly waiter 0 with (5,0) (waiter 1 stays parked); waiter 2 starts on (0,0) after its
+   Done and returns (5,0) at once; the Done step of (0,1) releases waiter 1 with (1,1). *)
+Definition c09_gprogs : list (list tq_op) := [[TqCallback (Some (5, 0)%Z); TqCallback (Some (1, 1)%Z)]].
+Definition c09_gsched : list tq_gact :=
+  [TqGBase (TqProd 0 true); TqGBase (TqProd 0 true); TqGGet (TqHTask (0, 0));
+   TqGBase (TqRecv 0); TqGBase TqStore; TqGGet (TqHTask (0, 1)); TqGBase TqDone;
+   TqGGet (TqHTask (0, 0)); TqGBase (TqRecv 0); TqGBase TqStore; TqGBase TqDone].
+
+Example c09_get_nonvacuous :
+  let g0 := tq_ginit 2 c09_gprogs in
+  let t0 := {| tq_id := (0, 0); tq_kind_of := TqKCallback; tq_handler := (5, 0)%Z |} in
+  let t1 := {| tq_id := (0, 1); tq_kind_of := TqKCallback; tq_handler := (1, 1)%Z |} in
+  tq_gtrace g0 c09_gsched =
+    [TqGEBase (TqESent 0 t0) []; TqGEBase (TqESent 0 t1) []; TqGEPark 0;
+     TqGEBase (TqERecv t0 None) []; TqGEBase (TqEStore t0) []; TqGEPark 1;
+     TqGEBase (TqEDone t0) [(0, (5, 0)%Z)];
+     TqGERet 2 (5, 0)%Z;
+     TqGEBase (TqERecv t1 None) []; TqGEBase (TqEStore t1) [];
+     TqGEBase (TqEDone t1) [(1, (1, 1)%Z)]] /\
+  (* before the Done step of (0,0): everybody parked, Get2 blocked *)
+  map tq_w_ret (tq_waiters (tq_gfinal g0 (firstn 6 c09_gsched))) = [None; None] /\
+  tq_get2 (tq_base (tq_gfinal g0 (firstn 6 c09_gsched))) (TqHTask (0, 0)) = None /\
+  (* right after it *)
+  map tq_w_ret (tq_waiters (tq_gfinal g0 (firstn 7 c09_gsched))) = [Some (5, 0)%Z; None] /\
+  tq_get2 (tq_base (tq_gfinal g0 (firstn 7 c09_gsched))) (TqHTask (0, 0)) = Some (5, 0)%Z /\
+  tq_get2 (tq_base (tq_gfinal g0 (firstn 7 c09_gsched))) (TqHTask (0, 1)) = None /\
+  (* at the end: each task its own pair, for ever *)
+  map tq_w_ret (tq_waiters (tq_gfinal g0 c09_gsched)) = [Some (5, 0)%Z; Some (1, 1)%Z; Some (5, 0)%Z] /\
+  tq_get1 (tq_base (tq_gfinal g0 c09_gsched)) (TqHTask (0, 1)) = Some 1%Z /\
+  (* the hypothesis of the theorems is met by both calls *)
+  nth_error (nth 0 c09_gprogs []) 0 = Some (TqCallback (Some (5, 0)%Z)) /\
+  nth_error (nth 0 c09_gprogs []) 1 = Some (TqCallback (Some (1, 1)%Z)).
 Proof. vm_compute. repeat split. Qed.
